@@ -979,3 +979,37 @@ package kafka
 //@   modifies wb.$wn, wb.b
 //@   ensures wb.$wn == old(wb.$wn) + varIntLen(i)
 //@   loop 0 unroll 10
+
+//@ func (*writeBuffer).writeString
+//@   modifies wb.$wn, wb.b
+//@   ensures wb.$wn == old(wb.$wn) + 2 + len(s)
+//@ func (*writeBuffer).writeArrayLen
+//@   modifies wb.$wn, wb.b
+//@   ensures wb.$wn == old(wb.$wn) + 4
+//@ func (requestHeader).size
+//@   pure
+//@   ensures len(h.ClientID) <= 0x7fff ==> result == 14 + int32(len(h.ClientID))
+//@ func (requestHeader).writeTo
+//@   modifies wb.$wn, wb.b
+//@   ensures wb.$wn == old(wb.$wn) + 14 + len(h.ClientID)
+//@ func milliseconds
+//@   pure
+
+// each request writer: when the frame is flushed, the bytes written since entry are the 4-byte size field plus exactly
+// the number of bytes the size field announces
+//@ func (*writeBuffer).writeFetchRequestV2
+//@   requires len(clientID) <= 0x7fff && len(topic) <= 0x7fff
+//@   modifies wb.$wn, wb.b
+//@   callsite (*writeBuffer).Flush requires wb.$wn == old(wb.$wn) + 4 + int(h.Size)
+//@ func (*writeBuffer).writeFetchRequestV5
+//@   requires len(clientID) <= 0x7fff && len(topic) <= 0x7fff
+//@   modifies wb.$wn, wb.b
+//@   callsite (*writeBuffer).Flush requires wb.$wn == old(wb.$wn) + 4 + int(h.Size)
+//@ func (*writeBuffer).writeFetchRequestV10
+//@   requires len(clientID) <= 0x7fff && len(topic) <= 0x7fff
+//@   modifies wb.$wn, wb.b
+//@   callsite (*writeBuffer).Flush requires wb.$wn == old(wb.$wn) + 4 + int(h.Size)
+//@ func (*writeBuffer).writeListOffsetRequestV1
+//@   requires len(clientID) <= 0x7fff && len(topic) <= 0x7fff
+//@   modifies wb.$wn, wb.b
+//@   callsite (*writeBuffer).Flush requires wb.$wn == old(wb.$wn) + 4 + int(h.Size)
